@@ -61,6 +61,7 @@ type mLock struct {
 	ttl     uint64
 	fts     uint64
 	minc    uint64
+	txnSize uint64
 }
 
 type mWrite struct {
@@ -153,6 +154,23 @@ func (k *mKey) readAt(ts uint64) (string, bool) {
 
 func physical(ts uint64) uint64 { return ts >> 18 }
 
+// inRange: key in the raw range [start, end) ("" = unbounded).
+func inRange(key, start, end string) bool {
+	return key >= start && (end == "" || key < end)
+}
+
+// intersect of two raw ranges.
+func intersect(s1, e1, s2, e2 string) (string, string) {
+	s, e := s1, e1
+	if s2 > s {
+		s = s2
+	}
+	if e == "" || (e2 != "" && e2 < e) {
+		e = e2
+	}
+	return s, e
+}
+
 func (l *mLock) min() uint64 { return l.minc }
 
 func (l *mLock) expired(cur uint64) bool { return physical(l.ts)+l.ttl < physical(cur) }
@@ -240,6 +258,7 @@ type prewriteArgs struct {
 	ttl     uint64
 	fts     uint64 // request for_update_ts (0 = optimistic transaction)
 	minc    uint64
+	txnSize uint64
 }
 
 func (m *model) prewriteKey(key string, a prewriteArgs, op kvrpcpb.Op, val string, action kvrpcpb.PrewriteRequest_PessimisticAction) []alt {
@@ -255,7 +274,7 @@ func (m *model) prewriteKey(key string, a prewriteArgs, op kvrpcpb.Op, val strin
 	}
 	write := func(ttl, minc uint64) func() {
 		return func() {
-			nl := &mLock{ts: a.sts, primary: a.primary, op: lockOp, val: val, ttl: ttl}
+			nl := &mLock{ts: a.sts, primary: a.primary, op: lockOp, val: val, ttl: ttl, txnSize: a.txnSize}
 			if key == a.primary {
 				nl.minc = minc
 			}
@@ -390,6 +409,17 @@ func (m *model) plockKey(key string, a plockArgs) []alt {
 	}}}
 }
 
+// pessimisticRollbackRange: a request without keys rolls back the txn's pessimistic locks of the range.
+func (m *model) pessimisticRollbackRange(start, end string, sts, fts uint64) {
+	var keys []string
+	for _, key := range m.keys {
+		if inRange(key, start, end) {
+			keys = append(keys, key)
+		}
+	}
+	m.pessimisticRollback(keys, sts, fts)
+}
+
 func (m *model) pessimisticRollback(keys []string, sts, fts uint64) {
 	for _, key := range keys {
 		k := m.k[key]
@@ -503,8 +533,11 @@ func (m *model) heartbeat(key string, sts, advise uint64) (cls, uint64, func()) 
 // ---------------------------------------------------------------- resolve / scan lock
 
 // resolve: infos maps start ts -> commit ts (0 = roll back).
-func (m *model) resolve(infos map[uint64]uint64) {
+func (m *model) resolve(infos map[uint64]uint64, start, end string) {
 	for _, key := range m.keys {
+		if !inRange(key, start, end) {
+			continue
+		}
 		k := m.k[key]
 		if l := k.lock; l != nil {
 			if cts, ok := infos[l.ts]; ok {
@@ -519,9 +552,9 @@ func (m *model) resolve(infos map[uint64]uint64) {
 }
 
 // resolveDefined: resolving-with-commit below a lock's min_commit_ts is outside the statement.
-func (m *model) resolveDefined(infos map[uint64]uint64) bool {
+func (m *model) resolveDefined(infos map[uint64]uint64, start, end string) bool {
 	for _, key := range m.keys {
-		if l := m.k[key].lock; l != nil {
+		if l := m.k[key].lock; l != nil && inRange(key, start, end) {
 			if cts, ok := infos[l.ts]; ok && cts > 0 && (cts < l.minc || cts <= l.ts) {
 				return false
 			}
@@ -534,16 +567,59 @@ type lockInfo struct {
 	key     string
 	ts      uint64
 	primary string
+	// details (RPC answer): what a lock resolver needs
+	op      kvrpcpb.Op
+	ttl     uint64
+	fts     uint64
+	minc    uint64
+	txnSize uint64
+}
+
+// sameLock: key / start ts / primary always; with details: type, ttl, txn size always, for_update_ts for
+// pessimistic locks, min_commit_ts on the primary (what TiKV and the mock both keep there).
+func sameLock(want, got lockInfo, details bool) bool {
+	if want.key != got.key || want.ts != got.ts || want.primary != got.primary {
+		return false
+	}
+	if !details {
+		return true
+	}
+	if want.op != got.op || want.ttl != got.ttl {
+		return false
+	}
+	if want.op == kvrpcpb.Op_PessimisticLock {
+		if want.fts != got.fts {
+			return false
+		}
+	} else if want.txnSize != got.txnSize {
+		return false
+	}
+	if want.key == want.primary && want.minc != got.minc {
+		return false
+	}
+	return true
+}
+
+func sameLocks(want, got []lockInfo, details bool) bool {
+	if len(want) != len(got) {
+		return false
+	}
+	for i := range want {
+		if !sameLock(want[i], got[i], details) {
+			return false
+		}
+	}
+	return true
 }
 
 func (m *model) scanLock(start, end string, maxTS uint64) []lockInfo {
 	var out []lockInfo
 	for _, key := range m.keys {
-		if key < start || (end != "" && key >= end) {
+		if !inRange(key, start, end) {
 			continue
 		}
 		if l := m.k[key].lock; l != nil && l.ts <= maxTS {
-			out = append(out, lockInfo{key, l.ts, l.primary})
+			out = append(out, lockInfo{key: key, ts: l.ts, primary: l.primary, op: l.op, ttl: l.ttl, fts: l.fts, minc: l.minc, txnSize: l.txnSize})
 		}
 	}
 	return out
